@@ -134,7 +134,8 @@ def tlc(tla, cfg, name, workers=8, timeout=900, env_extra=None, simulate=None,
         keep_prints=True):
     """Run TLC. tla/cfg are paths. Returns TlcResult. Raises ToolError on crash/timeout."""
     md = workdir("tlc_" + name)
-    cmd = java_cmd(xmx=xmx, xss=xss, deque=deque)
+    # TLC unpacks its standard modules into java.io.tmpdir (tlc-<n>/) and never removes them
+    cmd = java_cmd(xmx=xmx, xss=xss, deque=deque, extra_props=(f"-Djava.io.tmpdir={md}",))
     cmd += ["-workers", str(workers), "-metadir", md, "-cleanup", "-noGenerateSpecTE",
             "-config", cfg]
     if coverage:
